@@ -348,6 +348,32 @@ func runForHeaders(r *engine.Run) {
 	r.Bound("in-expressions", fmt.Sprint(len(es)))
 }
 
+// runNoIn: the NoIn matrix as raw texts. The reference tree is the oracle for
+// the texts that are valid programs (where ES5 re-enables `in`); the invalid
+// ones are C04's reject direction.
+func runNoIn(r *engine.Run) {
+	h := &harness{r: r}
+	valid, invalid := 0, 0
+	NoInTexts(func(key, src string) {
+		if !r.MineKey(key) {
+			return
+		}
+		ref := syntax.Parse(src, syntax.Options{})
+		if !ref.Accepted() {
+			invalid++
+			r.Skip()
+			return
+		}
+		if callTarget(ref.Tree) {
+			r.Skip()
+			return
+		}
+		valid++
+		h.compare(key, src, ref.Tree.Dump())
+	})
+	r.Note(fmt.Sprintf("shard %d: %d valid texts compared, %d invalid skipped", r.Shard, valid, invalid))
+}
+
 // runRegexDiv: `/` after each token class: contexts in which a regular
 // expression literal is expected versus those in which `/` divides.
 func runRegexDiv(r *engine.Run) {
